@@ -125,3 +125,108 @@ def check_calls(run, ix, complex_, rule_ops='C-R2', rule_args='C-R3'):
                 else:
                     run.ok(rule_ops, '%s: %s' % (f.qualname, norm(call, 60)))
     return nops, nargs
+
+
+# functions whose endpoint-level logic (sign cases, monotone regions, corner choice) was read and is
+# covered by the direction rules C-R1..C-R5; WHICH endpoint bounds the function is a value question
+# that no rule decides, so this is the audited set; every other interval function is an enclosure
+# by construction because it only composes interval operations
+ENDPOINT_LEVEL = {
+    'mpci_gamma', 'mpci_pow', 'mpi_abs', 'mpi_add', 'mpi_atan', 'mpi_atan2', 'mpi_cos_sin', 'mpi_delta',
+    'mpi_div', 'mpi_exp', 'mpi_from_str', 'mpi_gamma', 'mpi_le', 'mpi_lt', 'mpi_log', 'mpi_mid', 'mpi_mul',
+    'mpi_neg', 'mpi_overlap', 'mpi_pos', 'mpi_pow', 'mpi_pow_int', 'mpi_shift', 'mpi_sqrt', 'mpi_square',
+    'mpi_str', 'mpi_sub', 'mpi_to_str',
+}
+
+
+NOT_INTERVAL_RESULT = ('mpi_eq', 'mpi_ne', 'mpi_lt', 'mpi_le', 'mpi_gt', 'mpi_ge', 'mpi_overlap', 'mpi_str',
+                       'mpi_to_str', 'mpi_delta', 'mpi_mid', 'mpci_abs', 'mpci_arg')
+
+
+def endpoint_access(f):
+    """first place where an interval function takes an INTERVAL apart into endpoints: unpacking or
+    subscripting a value of kind interval (its interval parameters, a component of a rectangle, the
+    result of an mpi_* call).  Taking a rectangle apart into its two intervals is composition."""
+    cplx = f.name.startswith('mpci_')
+    kind = {}
+    for i, p_ in enumerate(f.params):
+        if p_ in ('prec', 'n', 'type', 'percent', 'rnd'):
+            continue
+        kind[p_] = 'R' if (cplx and not (f.name == 'mpci_mul_mpi' and i == 1)) else 'I'
+
+    def kind_of(e):
+        if isinstance(e, ast.Name):
+            return kind.get(e.id)
+        if isinstance(e, ast.Call) and isinstance(e.func, ast.Name):
+            n = e.func.id
+            if n in NOT_INTERVAL_RESULT:
+                return 'I' if n in ('mpci_abs', 'mpci_arg') else None
+            if n.startswith('mpci_') or n in ('mpi_cos_sin', 'mpi_cosh_sinh'):
+                return 'R'          # a pair of intervals
+            if n.startswith('mpi_'):
+                return 'I'
+        if isinstance(e, ast.Subscript) and isinstance(e.slice, ast.Constant) and kind_of(e.value) == 'R':
+            return 'I'
+        if isinstance(e, ast.Tuple) and len(e.elts) == 2 and all(kind_of(x) == 'I' for x in e.elts):
+            return 'R'
+        return None
+    changed = True
+    while changed:
+        changed = False
+        for x in _walk_own(f.node):
+            if isinstance(x, ast.Assign) and len(x.targets) == 1:
+                t, v = x.targets[0], x.value
+                k = kind_of(v)
+                if isinstance(t, ast.Name) and k and kind.get(t.id) != k:
+                    kind[t.id] = k
+                    changed = True
+                if isinstance(t, ast.Tuple) and k == 'R' and len(t.elts) == 2:
+                    for e in t.elts:
+                        if isinstance(e, ast.Name) and kind.get(e.id) != 'I':
+                            kind[e.id] = 'I'
+                            changed = True
+                if isinstance(t, ast.Tuple) and isinstance(v, ast.Tuple) and len(t.elts) == len(v.elts):
+                    for e, w in zip(t.elts, v.elts):
+                        kk = kind_of(w)
+                        if isinstance(e, ast.Name) and kk and kind.get(e.id) != kk:
+                            kind[e.id] = kk
+                            changed = True
+    for x in _walk_own(f.node):
+        if isinstance(x, ast.Assign) and isinstance(x.targets[0], ast.Tuple) and kind_of(x.value) == 'I' and \
+                not isinstance(x.value, ast.Tuple):
+            return x
+        if isinstance(x, ast.Assign) and isinstance(x.targets[0], ast.Tuple) and kind_of(x.value) == 'R' and \
+                any(isinstance(e, ast.Tuple) for e in x.targets[0].elts):
+            return x
+        if isinstance(x, ast.Subscript) and isinstance(x.slice, ast.Constant) and kind_of(x.value) == 'I':
+            return x
+    return None
+
+
+def check_composition(run, ix, complex_, rule='C-R13'):
+    """C-R13: an interval function outside the audited endpoint-level set must stay a composition
+    of interval operations on whole intervals (then it is an enclosure by construction).  Taking
+    the argument apart and evaluating at its endpoints needs a monotonicity argument; in a function
+    that had none this is unaudited corner selection (both independent seeding agents produced
+    exactly this for the cosh of mpi_cosh_sinh: the larger of |a|, |b| was not considered)."""
+    n = 0
+    for f in functions(ix, complex_):
+        if f.name in ENDPOINT_LEVEL:
+            continue
+        n += 1
+        x = endpoint_access(f)
+        if x is None:
+            run.ok(rule, '%s composes interval operations only' % f.name if n < 6 else None)
+        else:
+            st = x
+            while not isinstance(st, ast.stmt):
+                st = st._parent
+            run.fail(Finding(rule, LIBMPI, f.qualname, norm(st),
+                             '%s takes its interval argument apart into endpoints; it is not one of the audited '
+                             'endpoint-level functions, and was an enclosure only because it composed interval '
+                             'operations on whole intervals.  Results built from endpoint evaluations are enclosures '
+                             'only on a monotone piece, which nothing here establishes' % f.name, line=st.lineno))
+    for name in sorted(ENDPOINT_LEVEL):
+        if not any(g.name == name for g in ix.module(LIBMPI).funcs.values()):
+            raise AnalysisError('audited endpoint-level function vanished: %s' % name)
+    return n
